@@ -26,7 +26,7 @@ ProjTuns(ts, n) == {[lidx |-> i, ridx |-> ts[n][i].ridx, addrs |-> ts[n][i].addr
                      init |-> ts[n][i].init, hsTime |-> ts[n][i].hsTime, hs1 |-> ts[n][i].hs1,
                      hs2 |-> ts[n][i].hs2, remote |-> ts[n][i].remote] : i \in DOMAIN ts[n]}
 ProjPend(pd, n) == {[a |-> a, ready |-> pd[n][a].ready, idx |-> pd[n][a].idx, tries |-> pd[n][a].tries,
-                     queued |-> pd[n][a].queued, hs1 |-> pd[n][a].hs1] : a \in DOMAIN pd[n]}
+                     queued |-> Len(pd[n][a].queue), hs1 |-> pd[n][a].hs1] : a \in DOMAIN pd[n]}
 
 PerDst(seq, d) == SelectSeq(seq, LAMBDA e : e.to = d)
 
@@ -47,7 +47,7 @@ TraceReset == /\ IsEvent("reset")
               /\ out' = <<>> /\ tunout' = 0 /\ sends' = 0
               /\ timers' = [n \in Nodes |-> [a \in {} |-> <<>>]] /\ early' = FALSE
 
-TraceTunSend == /\ IsEvent("TunSend") /\ TunSend(Log[l].n, Log[l].a) /\ Match(Log[l].n, Log[l])
+TraceTunSend == /\ IsEvent("TunSend") /\ TunSend(Log[l].n, Log[l].a, Log[l].ok) /\ Match(Log[l].n, Log[l])
 TraceRetry   == /\ IsEvent("Retry")   /\ Retry(Log[l].n, Log[l].a, Log[l].k) /\ Match(Log[l].n, Log[l])
 TraceDeliver == /\ IsEvent("Deliver")
                 /\ LET n == Log[l].n  id == Log[l].id  via == Log[l].via IN
